@@ -51,6 +51,20 @@ def _events_for(r, pin, pan, tid, cipher):
         e['_observed'] = out
     ev.append(e)
     block4 = out if kind == 'ok' else None
+    if kind == 'ok' and tid % 2:
+        # a copy of the object (copy.copy / copy.deepcopy / a pickle round trip: objects handed to a worker, kept in a
+        # cache) is the same block: same PIN, same supplied fill, same card
+        import copy
+        import pickle
+        how = (copy.copy, copy.deepcopy, lambda o: pickle.loads(pickle.dumps(o)))[(tid // 2) % 3]
+        k2, out2 = call(lambda: how(pinblock.Iso4PinBlock(pin, random_value=fill)).to_bytes())
+        e = pev('iso4', pin, data=fill.to_bytes(8, 'big'), supplied=True, kind=k2, out=out2 if k2 == 'ok' else ())
+        e['_observed'] = {'block_built_by_a_copy_of_the_object': ('copy.copy', 'copy.deepcopy', 'pickle')[(tid // 2) % 3]}
+        ev.append(e)
+        k2, out2 = call(lambda: how(pinblock.Iso0PinBlock(pin, card_number=pan)).to_bytes())
+        e = pev('iso0', pin, pan, kind=k2, out=out2 if k2 == 'ok' else ())
+        e['_observed'] = {'block_built_by_a_copy_of_the_object': ('copy.copy', 'copy.deepcopy', 'pickle')[(tid // 2) % 3]}
+        ev.append(e)
     if block4 is not None:
         k2, out2 = call(lambda: pinblock.Iso4PinBlock.from_bytes(block4).pin)
         ev.append(pev('iso4pin', pin, data=block4, kind=k2, out=pinc.safe_digits(out2) if k2 == 'ok' else ()))
